@@ -78,6 +78,15 @@ Theorem C20_routing_zero : forall s : apu,
 Proof. intros s. split; [exact (left_zero s) | exact (right_zero s)]. Qed.
 Print Assumptions C20_routing_zero.
 
+(* an APU power cycle clears NR50 and NR51: whatever is written or triggered afterwards (except NR50, NR51, NR52)
+   and however much time passes, both sides are 0 and NR51 reads 0 - from every state *)
+Theorem C20_power_cycle_silent : forall (s : apu) (v_off v_on : N) (h : list apu_op),
+  (N.shiftr v_off 7 =? 0) = true -> (N.shiftr v_on 7 =? 0) = false -> Forall keeps_mixer h ->
+  let s' := apu_run (apu_bus_write (apu_bus_write s 0xFF26 v_off) 0xFF26 v_on) h in
+  mixer_cleared (ctl s') /\ left_sample s' = 0 /\ right_sample s' = 0 /\ apu_bus_read s' 0xFF25 = 0.
+Proof. exact power_cycle_silent. Qed.
+Print Assumptions C20_power_cycle_silent.
+
 (* non-interference: a side's sample does not depend on channels that are not routed to it *)
 Theorem C20_noninterference : forall s s' : apu,
   ctl s = ctl s' ->
